@@ -2,43 +2,81 @@
   `Matches`: the relation between a TL schema (list of definitions) and a constructor registry —
   same ids, fields equal to the parameters in order, type, conditional-flag bit, `true`-typed
   parameters as bitflag bools, the flags word at the position of `flags:#`. Decidable, evaluated by the
-  kernel on the regenerated tables (C13); hypothesis of the wire-format theorem (C02).
+  kernel on the regenerated tables (C13).
+
+  Written for kernel evaluation: the joins "constructors of a boxed type", "implementers of a Go
+  interface", "members of a Go enum type" go through small tables (a few hundred entries) that are
+  computed once (`mkTypeTable`, `mkIfaceTable`, `mkEnumTable`) instead of scanning the big tables per field.
 -/
 import Mtv.Schema.Types
 import Mtv.TL.Types
 namespace Mtv.Schema
 open Mtv.TL
 
-/-- constructor ids of a boxed type, in schema order -/
-def ctorsOfType (S : List Def) (t : String) : List Nat :=
-  (S.filter fun d => !d.isFunc && d.result == t).map (·.id)
+abbrev Table := List (BStr × List Nat)        -- schema side: boxed type ↦ constructor ids
+abbrev STable := List (String × List Nat)     -- registry side: Go interface / enum type ↦ constructor ids
+
+def lookupB : Table → BStr → List Nat
+  | [], _ => []
+  | (k, v) :: t, q => if k == q then v else lookupB t q
+
+def insertB : Table → BStr → Nat → Table
+  | [], k, v => [(k, [v])]
+  | (k', vs) :: t, k, v => if k' == k then (k', vs ++ [v]) :: t else (k', vs) :: insertB t k v
+
+def lookupS : STable → String → List Nat
+  | [], _ => []
+  | (k, v) :: t, q => if k == q then v else lookupS t q
+
+def insertS : STable → String → Nat → STable
+  | [], k, v => [(k, [v])]
+  | (k', vs) :: t, k, v => if k' == k then (k', vs ++ [v]) :: t else (k', vs) :: insertS t k v
+
+/-- boxed type ↦ ids of its constructors, in schema order -/
+def mkTypeTable (S : List Def) : Table :=
+  S.foldl (fun t d => if d.isFunc then t else insertB t d.result d.id) []
+
+/-- boxed types that have a constructor with parameters (i.e. are not enumerations) -/
+def mkNonEnum (S : List Def) : List BStr :=
+  S.foldl (fun t d => if d.isFunc || d.params.isEmpty || t.contains d.result then t else t ++ [d.result]) []
+
+/-- Go interface type ↦ ids of the registered constructors implementing it -/
+def mkIfaceTable (R : Registry) : STable :=
+  R.foldl (fun t c => c.ifaces.foldl (fun t nm => insertS t nm c.id) t) []
+
+/-- Go enum type ↦ ids registered under it -/
+def mkEnumTable (R : Registry) : STable :=
+  R.foldl (fun t c => if c.kind == .enum then insertS t c.name c.id else t) []
 
 def setEq (a b : List Nat) : Bool := a.all (fun x => b.contains x) && b.all (fun x => a.contains x)
 
+structure Tables where
+  types : Table
+  nonEnum : List BStr
+  ifaces : STable
+  enums : STable
+
+def mkTables (R : Registry) (S : List Def) : Tables :=
+  ⟨mkTypeTable S, mkNonEnum S, mkIfaceTable R, mkEnumTable R⟩
+
 /-- does the Go type `g` carry exactly the values of the schema type `s`? A boxed type maps to a
-pointer (one constructor), an enum (all constructors registered under that enum type) or an
-interface implemented by exactly the type's constructors. Vectors must be boxed (the codec always
-writes the vector id). -/
-def tyMatch (R : Registry) (S : List Def) : STy → Ty → Bool
-  | .prim "int", .int32 => true
-  | .prim "long", .int64 => true
-  | .prim "double", .f64 => true
-  | .prim "string", .str => true
-  | .prim "bytes", .bytes => true
-  | .prim "Bool", .bool => true
-  | .prim "true", .bool => true
-  | .prim "int128", .i128 => true
-  | .prim "int256", .i256 => true
-  | .vec true e, .vec g => tyMatch R S e g
-  | .bang _, .iface "tl.Object" => true
-  | .ref "Object", .iface "tl.Object" => true
-  | .ref t, .ptr id => ctorsOfType S t == [id]
+pointer (its single constructor), an enum (exactly its constructors are registered under that enum
+type) or an interface implemented by exactly the type's constructors. Vectors must be boxed (the
+codec always writes the vector id). -/
+def tyMatch (T : Tables) : STy → Ty → Bool
+  | .prim n, g =>
+    (n == bInt && g == .int32) || (n == bLong && g == .int64) || (n == bDouble && g == .f64) ||
+    (n == bString && g == .str) || (n == bBytes && g == .bytes) || (n == bBool && g == .bool) ||
+    (n == bTrue && g == .bool) || (n == bInt128 && g == .i128) || (n == bInt256 && g == .i256)
+  | .vec true e, .vec g => tyMatch T e g
+  | .bang _, .iface nm => nm == "tl.Object"
+  | .ref t, .ptr id => lookupB T.types t == [id]
   | .ref t, .enum nm =>
-    let cs := ctorsOfType S t
-    !cs.isEmpty &&
-    setEq cs ((R.filter fun d => d.kind == .enum && d.name == nm).map (·.id))
+    let cs := lookupB T.types t
+    !cs.isEmpty && !T.nonEnum.contains t && setEq cs (lookupS T.enums nm)
   | .ref t, .iface nm =>
-    nm != "tl.Object" && setEq (ctorsOfType S t) ((R.filter fun d => d.ifaces.contains nm).map (·.id))
+    if t == bObject then nm == "tl.Object"
+    else nm != "tl.Object" && setEq (lookupB T.types t) (lookupS T.ifaces nm)
   | _, _ => false
 
 /-- the parameters that become struct fields -/
@@ -57,33 +95,26 @@ def expectedFlagIndex : List Param → Nat → Option Nat
     | .typeParam _ => expectedFlagIndex ps n
     | _ => expectedFlagIndex ps (n + 1)
 
-def fieldMatch (R : Registry) (S : List Def) (p : Param) (f : FieldDesc) : Bool :=
-  tyMatch R S p.ty f.ty &&
+def fieldMatch (T : Tables) (p : Param) (f : FieldDesc) : Bool :=
+  tyMatch T p.ty f.ty &&
   (match p.cond, f.flag with
    | none, none => true
-   | some n, some fl => n == fl.bit && fl.inBits == (p.ty == .prim "true")
+   | some n, some fl => n == fl.bit && fl.inBits == (p.ty == .prim bTrue)
    | _, _ => false)
 
-def fieldsMatch (R : Registry) (S : List Def) : List Param → List FieldDesc → Bool
+def fieldsMatch (T : Tables) : List Param → List FieldDesc → Bool
   | [], [] => true
-  | p :: ps, f :: fs => fieldMatch R S p f && fieldsMatch R S ps fs
+  | p :: ps, f :: fs => fieldMatch T p f && fieldsMatch T ps fs
   | _, _ => false
 
-/-- is the boxed type an enumeration (every constructor without parameters)? -/
-def isEnumType (S : List Def) (t : String) : Bool :=
-  (S.filter fun d => !d.isFunc && d.result == t).all fun d => d.params.isEmpty
-
-/-- one definition against the registry -/
-def defMatch (R : Registry) (S : List Def) (d : Def) : Bool :=
+/-- one definition against the registry: a registered type with the same id, and the same layout -/
+def defMatch (T : Tables) (R : Registry) (d : Def) : Bool :=
   match R.find d.id with
   | none => false
   | some c =>
     match c.kind with
-    | .enum => !d.isFunc && d.params.isEmpty && isEnumType S d.result
-    | .struct => c.flagIndex == expectedFlagIndex d.params 0 && fieldsMatch R S (fieldParams d) c.fields
+    | .enum => !d.isFunc && d.params.isEmpty && !T.nonEnum.contains d.result
+    | .struct => c.flagIndex == expectedFlagIndex d.params 0 && fieldsMatch T (fieldParams d) c.fields
     | _ => false
-
-def firstMismatch (R : Registry) (S : List Def) (defs : List Def) : Option String :=
-  (defs.find? fun d => !defMatch R S d).map (·.name)
 
 end Mtv.Schema
